@@ -15,8 +15,10 @@ import traceback
 
 ROOT = os.path.dirname(os.path.abspath(__file__))      # /verif, or a snapshot of it (vp run)
 sys.path.insert(0, ROOT)
-sys.path.insert(0, "/repo")
+REPO = os.environ.get("VERIF_REPO", "/repo")           # the tree under test (default: /repo's working tree)
+sys.path.insert(0, REPO)
 os.environ["VERIF_ROOT"] = ROOT
+os.environ["VERIF_REPO"] = REPO
 os.environ.setdefault("PYTHONHASHSEED", "0")
 
 from harness import common  # noqa: E402
